@@ -148,7 +148,7 @@ def replay_obj(c, why):
 
 
 def signature(c, why):
-    return {'kind': why.split(':')[0], 'info_only': c.info_only, 'filter': c.fexpr is not None}
+    return {'kind': why.split(':')[0], 'info_only': c.info_only, 'filter': c.fexpr is not None, 'part': c.part}
 
 
 def shrink(drv, treq, c, why):
@@ -593,14 +593,23 @@ def replay(ctx, path):
             ctx.violation('oracle: split pieces differ', rep, signature={'kind': 'split'})
         return
     keep = rep.get('keep') or [True] * len(pieces)
-    exp = [p for p, k in zip(pieces, keep) if k]
+    oracle = F.OUTSIDE not in keep
+    exp, eout = [], 'done'
+    for p_, k in zip(pieces, keep):
+        if k == F.RAISES:
+            eout = 'err:other'
+            break
+        if k is True:
+            exp.append(p_)
     items, out = S.impl_scan(s, info_only=rep['info_only'], continue_on_error=rep.get('continue_on_error', False),
                              filter_expr=rep.get('filter_expr'), limit=len(pieces) + 3)
-    r = drv.batch([treq, S.scan_req(s, rep['info_only'], rep.get('continue_on_error', False), rep.get('filter_model'))])[1]
-    print('replay: expected', [len(x) for x in exp])
+    r = drv.batch([treq, S.scan_req(s, rep['info_only'], rep.get('continue_on_error', False), rep.get('filter_model'),
+                                    fexpr=rep.get('filter_tree'))])[1]
+    print('replay: filter', rep.get('filter_expr'), ' separators', rep.get('separators'))
+    print('        expected', eout, [len(x) for x in exp], '' if oracle else '(no oracle: the filter refers to what the metadata-only decode has not)')
     print('        implementation', out, [len(x) for x in items])
     print('        model', r['outcome'], r['items'])
-    if out != 'done' or items != exp:
+    if oracle and (out != eout or items != exp):
         ctx.violation('oracle: yielded pieces differ from the messages of the stream', rep, signature={'kind': 'oracle'})
     elif r['outcome'] != out or S.model_items(s, r) != items:
         ctx.violation('correspondence: model and implementation differ', rep, signature={'kind': 'correspondence'})
